@@ -104,7 +104,7 @@ def convert_grid_2d(
         mapping large data arrays to and from the slim / native formats, which can be a computational bottleneck.
     """
 
-    grid_2d = convert_grid(grid=grid_2d)
+    grid_2d = convert_grid(grid=grid_2d).copy()
 
     check_grid_2d_and_mask_2d(grid_2d=grid_2d, mask_2d=mask_2d)
 
